@@ -179,7 +179,10 @@ def run(tier, seed):
                 for st_in, st_out in zip(din['stories'], dout['stories']):
                     if any(t in stext(st_in, v) for t in tg for v in ('raw', 'acc')): continue
                     if E.tape_nopid({'stories': [st_in]}) != E.tape_nopid({'stories': [st_out]}):
-                        ck.violation('oracle', case, 'the story %s, whose text no edit of the batch targets, changed' % st_in.get('part', '?')); break
+                        msg = 'the story %s, whose text no edit of the batch targets, changed' % st_in.get('part', '?')
+                        if J.in_virtual({'din': din, 'edits': arg}, docrun.extract(b, False)): ck.known('D40', J.WHAT['D40'], case)      # the target was found in virtual text of that story first
+                        else: ck.violation('oracle', case, msg)
+                        break
             pa = [(p['ppr'], tuple(p['style'])) for p in A.paras(din)]; pb = [(p['ppr'], tuple(p['style'])) for p in A.paras(back)]
             if len(pa) == len(pb) and pa != pb:
                 k = next(i for i in range(len(pa)) if pa[i] != pb[i])
